@@ -111,8 +111,7 @@ fn history_case<T: Sc>(rng: &mut Rng, case: u64, out: &mut CaseOut, maxlen: usiz
     let g = gen_problem(rng, &GenOpts { nmax: if T::IS_F64 { 80 } else { 40 }, smax: 5, ..Default::default() });
     let mut spec = g.spec;
     spec.alpha0 = wide_alpha(rng, &g.alpha_true);
-    let ctl = SpyCtl::new();
-    let mut prob = match build_problem::<T>(&spec, &ctl) {
+    let mut prob = match build_problem_auto::<T>(&spec) {
         Ok(p) => p,
         Err(e) => {
             violation(out, stream, case, format!("valid problem rejected by the builder: {e}"), spec.to_json());
@@ -202,7 +201,7 @@ fn fit_case<T: Sc>(rng: &mut Rng, case: u64, out: &mut CaseOut) {
     let g = gen_problem(rng, &GenOpts { nmax: 50, smax: 4, ..Default::default() });
     let mut spec = g.spec;
     spec.alpha0 = perturb_alpha(rng, &g.alpha_true, 0.3);
-    let prob = match build_problem::<T>(&spec, &SpyCtl::new()) {
+    let prob = match build_problem_auto::<T>(&spec) {
         Ok(p) => p,
         Err(e) => {
             violation(out, stream, case, format!("valid problem rejected by the builder: {e}"), spec.to_json());
@@ -251,7 +250,7 @@ fn rankdef_case<T: Sc>(rng: &mut Rng, case: u64, out: &mut CaseOut) {
     let stream = "rank-deficient";
     let (g, hist) = gen_rank_deficient(rng, T::IS_F64, 4, 4);
     let spec = g.spec;
-    let Ok(mut prob) = build_problem::<T>(&spec, &SpyCtl::new()) else {
+    let Ok(mut prob) = build_problem_auto::<T>(&spec) else {
         violation(out, stream, case, "valid problem rejected", spec.to_json());
         return;
     };
